@@ -891,10 +891,104 @@ def _apply_renames(j, ren):
     j['renamed'] = dict(ren)
 
 
+def _canonical_params(j):
+    """Parameters of vocabulary functions carry their reference names (matched by position and type): a renamed parameter
+    is the same parameter."""
+    pp = os.path.join(os.path.dirname(os.path.dirname(os.path.abspath(__file__))), 'rules', 'vocab_params.json')
+    if not os.path.exists(pp):
+        return
+    ref = json.load(open(pp))
+    n = 0
+    for b in j['bodies']:
+        r = ref.get(b['path'])
+        if r is None or len(r) != b['arg_count']:
+            continue
+        if any(b['locals'][i + 1]['ty'] != ty for i, (nm, ty) in enumerate(r)):
+            continue
+        for i, (nm, ty) in enumerate(r):
+            l = b['locals'][i + 1]
+            if nm is not None and l['names'] != [nm]:
+                # keep other locals that happen to use the reference name distinct
+                for k, other in enumerate(b['locals']):
+                    if k != i + 1 and nm in other['names']:
+                        other['names'] = [x + '_' for x in other['names']]
+                l['names'] = [nm]
+                n += 1
+    j['params_renamed'] = n
+
+
+def _canonical_fields(j):
+    """Fields of the crate's own structs carry their reference names (matched by ADT, position and type): a renamed private
+    field is the same field. Only structs (one variant) whose field count and types are unchanged are treated."""
+    fp = os.path.join(os.path.dirname(os.path.dirname(os.path.abspath(__file__))), 'rules', 'vocab_fields.json')
+    if not os.path.exists(fp):
+        return
+    ref = json.load(open(fp))
+    ren = {}
+    for a in j['adts']:
+        r = ref.get(a['path'])
+        if r is None or a.get('kind') != 'Struct' or len(a['variants']) != 1 or len(r) != 1:
+            continue
+        fs = a['variants'][0]['fields']
+        if len(fs) != len(r[0]) or any(fs[i]['ty'] != r[0][i][1] for i in range(len(fs))):
+            continue
+        have = [x['name'] for x in fs]
+        want = [x[0] for x in r[0]]
+        if have == want or sorted(have) == sorted(want):
+            continue
+        for i, (h, w) in enumerate(zip(have, want)):
+            if h != w:
+                ren[(a['path'], i)] = w
+                fs[i]['name'] = w
+    if not ren:
+        return
+
+    def fix_place(p):
+        for pr in p.get('pr', []):
+            if isinstance(pr, dict) and 'f' in pr and (pr.get('of'), pr.get('i')) in ren:
+                pr['f'] = ren[(pr['of'], pr['i'])]
+
+    def fix_op(o):
+        if isinstance(o, dict) and o.get('k') in ('copy', 'move'):
+            fix_place(o['p'])
+    for b in j['bodies']:
+        for blk in b['blocks']:
+            for st in blk['stmts']:
+                if st['k'] != 'assign':
+                    continue
+                fix_place(st['p'])
+                r = st['r']
+                for key in ('a', 'b'):
+                    if isinstance(r.get(key), dict):
+                        fix_op(r[key])
+                if isinstance(r.get('p'), dict):
+                    fix_place(r['p'])
+                for o in r.get('ops', []) or []:
+                    fix_op(o)
+                if r.get('k') == 'agg' and r.get('agg') == 'adt' and r.get('fields'):
+                    r['fields'] = [ren.get((r['adt'], i), fn) for i, fn in enumerate(r['fields'])]
+            t = blk['term']
+            if t['k'] == 'call':
+                for a in t['args']:
+                    fix_op(a)
+                fix_place(t['dest'])
+                if 'indirect' in t['callee']:
+                    fix_op(t['callee']['indirect'])
+            elif t['k'] == 'switch':
+                fix_op(t['discr'])
+            elif t['k'] == 'drop':
+                fix_place(t['p'])
+            elif t['k'] == 'assert':
+                fix_op(t['cond'])
+    j['fields_renamed'] = len(ren)
+
+
 class Facts:
     def __init__(self, path):
         self.j = json.load(open(path))
         _apply_renames(self.j, _rename_map(self.j))
+        _canonical_params(self.j)
+        _canonical_fields(self.j)
         self.bodies = {}
         for b in self.j['bodies']:
             self.bodies[b['path']] = Body(b, self)
